@@ -6,6 +6,11 @@ use core::cell::UnsafeCell;
 use core::fmt::Debug;
 use core::marker::PhantomData;
 use core::num::NonZeroUsize;
+#[cfg(tiny_std_verif)]
+use crate::verif::AtomicU32;
+#[cfg(tiny_std_verif)]
+use core::sync::atomic::{AtomicBool, Ordering};
+#[cfg(not(tiny_std_verif))]
 use core::sync::atomic::{AtomicBool, AtomicU32, Ordering};
 use sc::nr::MUNMAP;
 
